@@ -17,7 +17,7 @@ Lexemes ==
        [k |-> "lit", s |-> <<"l">>], [k |-> "var", pre |-> "", lo |-> <<"v">>], P_("("), P_(")"), P_("["), P_("]"), P_("/"), P_("//"), P_("|"),
        P_("-"), P_("*"), P_("="), P_(","), P_("::"), P_("@"), P_("."), P_("..") >>
   ELSE IF Alphabet = "ops" THEN
-    << N_(<<"a">>), [k |-> "num", v |-> NInt(2)], [k |-> "num", v |-> NInt(3)], N_(<<"a","n","d">>), N_(<<"o","r">>), N_(<<"m","o","d">>), N_(<<"d","i","v">>),
+    << N_(<<"a">>), [k |-> "num", v |-> NInt(2)], [k |-> "num", v |-> NInt(10)], N_(<<"a","n","d">>),   \* (10: also spelled 010 and 10.0 by the renderer) N_(<<"o","r">>), N_(<<"m","o","d">>), N_(<<"d","i","v">>),
        P_("+"), P_("-"), P_("*"), P_("="), P_("!="), P_("<"), P_("<="), P_(">"), P_(">="), P_("|"), P_("("), P_(")") >>
   ELSE IF Alphabet = "lex" THEN
     << N_(<<"_","x">>), N_(<<"a">>), [k |-> "numdot", v |-> NInt(1)], [k |-> "num", v |-> Rat(1, 2)], [k |-> "num", v |-> Rat(3, 2)], P_("/"), P_("+"), P_("("), P_(")"), P_("@"),
